@@ -221,10 +221,10 @@ def c05_d(ctx):
             differs = any(pol and match_any(t, ('{0} != pool.{0}'.format(fld),
                                                 'pool.{0} != {0}'.format(fld))) is not None
                           for (t, pol, _) in gs)
-            ctxt = any(pol and t[0] == 'bool' and t[1] == 'and' and
-                       any(match(x, pattern('pool.has_context')) is not None for x in t[2]) and
-                       any(match(x, pattern('pool is not None')) is not None for x in t[2])
-                       for (t, pol, _) in gs)
+            ctxt = any(pol and match(t, pattern('pool.has_context')) is not None
+                       for (t, pol, _) in gs) and \
+                any(pol and match(t, pattern('pool is not None')) is not None
+                    for (t, pol, _) in gs)
             given = any(pol is False and match(t, pattern('{} is None'.format(fld))) is not None
                         for (t, pol, _) in gs)
             if differs and ctxt and given:
